@@ -158,7 +158,7 @@ def i2_i3(prog: Program, chk: Check) -> None:
     chk.rule("I2", "a parallel gate layer is schedule independent: snapshots before the first "
              "submission; submitted callable is a module-level function without persistent / "
              "global writes; results consumed in submission order; write-back in the calling "
-             "thread after the executor has been joined; executors context-managed", floor=8)
+             "thread after the executor has been joined; executors context-managed", floor=5)
     chk.rule("I3", "modes {absent, 'multithread', 'multiprocess'} reach the same worker and the "
              "same write-back; any other value raises", floor=4)
     u = prog.unit(f"{BACKEND}:PtTebdBackend.apply_nn_gate_layer")
@@ -166,18 +166,31 @@ def i2_i3(prog: Program, chk: Check) -> None:
     g = du.cfg
     chk.saw(u, g)
     mod = u.module
+    # completion-order consumption anywhere in the back end is decided first
+    for v in prog.units_in(BACKEND):
+        if isinstance(v.node, ast.Lambda):
+            continue
+        for x in walk_local(v.node):
+            if isinstance(x, ast.Call):
+                fn = dotted(x.func) or ""
+                if fn.endswith("as_completed") or fn.endswith("add_done_callback") or \
+                        fn.endswith("concurrent.futures.wait"):
+                    chk.add("I2", v, f"{fn}(...)", False,
+                            "results are consumed in completion order: the result of one gate "
+                            "can be written back to the sites of another", x)
+
+    def _is_executor_value(e: Optional[ast.AST]) -> bool:
+        return e is not None and "Executor" in norm(e)
     submits: List[Tuple[int, ast.Call]] = []
     for n in g.nodes:
         for c in n.calls():
             mc = method_call(c)
             if mc and mc[1] in SUBMITTERS and isinstance(c.func.value, ast.Name):
                 ds = du.reaching(n.id, c.func.value.id)
-                if ds and all(d.sel and d.sel[0] == ("with",) and d.value is not None and
-                              "Executor" in norm(d.value) for d in ds):
+                if ds and all(_is_executor_value(d.value) for d in ds):
                     submits.append((n.id, c))
-    if len(submits) < 2:
-        raise AnalysisError(f"I2: {len(submits)} executor submissions found in "
-                            f"apply_nn_gate_layer (floor 2)")
+    if len(submits) < 1:
+        raise AnalysisError("I2: no executor submission found in apply_nn_gate_layer")
     snap = [n.id for n in g.nodes for c in n.calls()
             if method_call(c) == ("self", "_apply_nn_gate_get_data")]
     wb = [n.id for n in g.nodes for c in n.calls()
@@ -195,7 +208,13 @@ def i2_i3(prog: Program, chk: Check) -> None:
     if not par_wb:
         chk.add("I2", u, "(iv) write-back after join", False,
                 "no write-back is reachable after the submissions")
-    with_exits = {n.id for n in g.nodes if n.kind == "with_exit" and "Executor" in norm(n.ast)}
+    exec_names = {c.func.value.id for (_, c) in submits}
+    with_exits = {n.id for n in g.nodes if n.kind == "with_exit" and
+                  ("Executor" in norm(n.ast) or (isinstance(n.ast, ast.Name)
+                                                  and n.ast.id in exec_names))}
+    managed = bool(with_exits)
+    chk.add("I2", u, "(v) executors are context managed", managed,
+            "" if managed else "the executor is never joined")
     for (nid, c) in submits:
         kind = method_call(c)[1]
         # (ii) callable
@@ -229,17 +248,6 @@ def i2_i3(prog: Program, chk: Check) -> None:
                 ok = False
         chk.add("I2", u, f"(iv) {norm(c.func)}: write-back only after the executor is joined", ok,
                 "" if ok else "results are written back while workers may still be running", c)
-    # as_completed / callbacks anywhere in the backend
-    for v in prog.units_in(BACKEND):
-        if isinstance(v.node, ast.Lambda):
-            continue
-        for x in walk_local(v.node):
-            if isinstance(x, ast.Call):
-                fn = dotted(x.func) or ""
-                if fn.endswith("as_completed") or fn.endswith("add_done_callback") or \
-                        fn.endswith(".wait"):
-                    chk.add("I2", v, f"{fn}(...)", False,
-                            "results are consumed in completion order", x)
     # snapshot copies everything mutable it hands out
     gd = prog.unit(f"{BACKEND}:PtTebdBackend._apply_nn_gate_get_data")
     dg = DefUse(gd, CFG(gd.node, exc_edges=False))
